@@ -121,7 +121,7 @@ rule('complex-ast', 'eval', '*', ['post', 'assert'], ['C15'])
 rule('decimal-ast', 'eval', '*', ['post', 'assert'], ['C15'])
 # ---- eval_decimal::ast (unit decimal-ast): mapping + error contract against the rust_decimal header
 DEC_ARITH = ['Add', 'Subtract', 'Multiply', 'Divide', 'Modulo', 'Negative']
-DEC_FUNCS = ['Abs', 'Floor', 'Ceil', 'Round', 'Truncate', 'Sign', 'Ln', 'Lb', 'Exp', 'Exp2', 'Sqrt', 'Pow', 'Root', 'Log']
+DEC_FUNCS = ['Abs', 'Floor', 'Ceil', 'Round', 'Truncate', 'Sign', 'Ln', 'Lb', 'Exp', 'Exp2', 'Sqrt', 'Pow', 'Root', 'Log', 'Factorial', 'LambertW', 'ILog']
 for a in DEC_ARITH:
     rule('decimal-ast', 'eval', a, ['post', 'assert'], ['C07', 'C20'])
 for a in DEC_FUNCS:
